@@ -180,8 +180,12 @@ def product_proof(p1, p2, lines, cache):
     if not allpos1:
         sg, a, mv = t1[0]
         lines.append(f"lemma_mul_is_distributive_sub_other_way({E2}, 0int, {term_txt(a, mv)}); lemma_mul_basics({E2});")
+    def tpoly(a_, mv_):
+        k = tuple(sorted({n: mv_.count(n) for n in set(mv_)}.items()))
+        return Poly({k: a_})
     for (sg1, a1, mv1) in t1:
         T = term_txt(a1, mv1)
+        P1 = tpoly(a1, mv1)
         for l in range(m, 1, -1):
             sg, a, mv = t2[l - 1]
             f = "lemma_mul_is_distributive_add" if sg > 0 else "lemma_mul_is_distributive_sub"
@@ -195,13 +199,17 @@ def product_proof(p1, p2, lines, cache):
                 if mv1 or mv2:
                     mv = mv1 or mv2
                     lines.append(f"lemma_mul_is_associative({a1}int, {a2}int, {mono_txt(mv)}); lemma_mul_is_commutative({term_txt(a1, mv1)}, {term_txt(a2, mv2)});")
-                continue
-            key = (tuple(mv1), tuple(mv2))
-            if key not in cache:
-                C = mono_mul_proof(mv1, mv2, lines)
-                cache[key] = C
-            C = cache[key]
-            lines.append(f"lemma_term_mul({a1}int, {mono_txt(mv1)}, {a2}int, {mono_txt(mv2)}, {mono_txt(C)});")
+            else:
+                key = (tuple(mv1), tuple(mv2))
+                if key not in cache:
+                    C = mono_mul_proof(mv1, mv2, lines)
+                    cache[key] = C
+                C = cache[key]
+                lines.append(f"lemma_term_mul({a1}int, {mono_txt(mv1)}, {a2}int, {mono_txt(mv2)}, {mono_txt(C)});")
+            # stepping stone: the pair product in canonical form
+            lines.append(f"assert(({T}) * ({term_txt(a2, mv2)}) == {(P1 * tpoly(a2, mv2)).txt()});")
+        if m > 1:
+            lines.append(f"assert(({T}) * ({E2}) == {(P1 * p2).txt()});")
 
 
 class Dag:
